@@ -548,7 +548,14 @@ def error_chain_check(ctx, chain, data):
     ctx.record([chain, "parse", data], reached, ["error/parse-" + ("reached" if reached else "not-reached"), "error/depth=%d" % len(chain)])
     if reached:
         if not is_exc(r, C.ExplicitError):
-            return Failure("C13/error/parse-swallowed/%s" % swallowing(chain), "Error reached when parsing %s through %s but the outcome was %r" % (data.hex(), " > ".join(chain), r))
+            # a chain that cannot work on this input whatever the leaf does (Peek/Select/GreedyRange restoring the position of a
+            # non-seekable bit stream after something was consumed) reports that, and parsing is aborted all the same
+            inert_leaf = C.Byte if chain and chain[-1] == "GreedyRange" else C.Pass     # (GreedyRange(Pass) never returns)
+            inert = call(chain_construct(chain, inert_leaf).parse, data, **kw)
+            if not r.ok and not inert.ok and type(inert.exc) is type(r.exc) and isinstance(r.exc, C.StreamError):
+                ctx.record([chain, "parse-inoperable", data], False, ["error/parse-chain-inoperable"])
+            else:
+                return Failure("C13/error/parse-swallowed/%s" % swallowing(chain), "Error reached when parsing %s through %s but the outcome was %r" % (data.hex(), " > ".join(chain), r))
     else:
         if r.ok != t.ok or (not r.ok and type(r.exc) is not type(t.exc)):
             return Failure("C13/error/twin-mismatch", "probe not reached yet outcomes differ: twin %r, real %r (chain %s)" % (t, r, chain))
